@@ -425,6 +425,7 @@ func (f *Federation) eventStreamHandler(sess *session, in *Event) (ack *Ack) {
 			EventId: eventID,
 		}
 	}
+	verifEventApplied(f.nodeName, sess.nodeName, in)
 	if sub := in.GetSubscribe(); sub != nil {
 		_, _ = f.fedSubStore.Subscribe(sess.nodeName, &gmqtt.Subscription{
 			ShareName:   sub.ShareName,
